@@ -12,7 +12,7 @@ EXPLANATION = (
     "O-AUDIT as C04 (main's own unwrap/expect sites are discharged by `required(true)` and the `readable file` premise). The "
     "error renderings (parser State, DecodeError, loader Error) are total and contain no newline. A closed stdout is outside "
     "the claim.")
-EXHAUSTIVE = True
+EXHAUSTIVE = False     # the abstract inputs are a stated finite scope, not the whole input space
 
 
 def fmt_print(n):
